@@ -469,7 +469,21 @@ def run(ctx):
         ctx.fail_input("fatal exception / error stop backtracked over",
                        {"program": "seq = Literal('a') - Literal('b'); seq.set_debug(True, recurse=True); seq | (Literal('a') + 'c')",
                         "input": "a c"}, "ParseSyntaxException", got, theorem="C07 statement", signature="set_debug_strands_errorstop")
-    ctx.count_cases("known-finding-witness", 1)
+    # registered finding: `x = A - B; x += C` appends to the outer And, which then has three elements and is not collapsed
+    x = pp.Literal("a") - pp.Literal("b")
+    x += pp.Literal("c")
+    g = x | (pp.Literal("a") + "z")
+    try:
+        got = ["ok", g.parse_string("a z").as_list()]
+    except pp.ParseFatalException as ex:
+        got = ["fatal", type(ex).__name__]
+    except pp.ParseBaseException as ex:
+        got = ["exc", type(ex).__name__]
+    if got[0] != "fatal":
+        ctx.fail_input("fatal exception / error stop backtracked over",
+                       {"program": "x = Literal('a') - Literal('b'); x += Literal('c'); x | (Literal('a') + 'z')", "input": "a z"},
+                       "ParseSyntaxException", got, theorem="C07 statement", signature="iadd_strands_errorstop")
+    ctx.count_cases("known-finding-witness", 2)
     jobs = []
     for i in range(ctx.budget(3000, 30000)):
         rng = random.Random(f"C07-{ctx.seed}-corr-{i}")
